@@ -14,8 +14,11 @@ import time
 import traceback
 
 VERIF = os.path.dirname(os.path.dirname(os.path.dirname(os.path.abspath(__file__))))
-EVIDENCE_DIR = os.path.join(VERIF, "evidence")
-REPLAY_DIR = os.path.join(VERIF, "replays")
+# VERIF_OUT redirects evidence and replay files (used only when trying seeded changes in a scratch
+# worktree, so that the committed evidence of the unchanged tree is not overwritten)
+_OUT = os.environ.get("VERIF_OUT") or VERIF
+EVIDENCE_DIR = os.path.join(_OUT, "evidence")
+REPLAY_DIR = os.path.join(_OUT, "replays")
 FINDINGS_FILE = os.path.join(VERIF, "findings", "known_findings.json")
 
 
